@@ -1,4 +1,5 @@
 SPEC = dict(
+    aux_kinds=["1 ", "2 ", "3 ", "5 "],   # capacities other than the real H = 8 need the add-only setter of an unexported variable
     harness="verif_c25",
     model="C25",
     uses_hashes=True,
